@@ -266,6 +266,13 @@ def check_model(schema, trail, ways, out, label):
                 else:
                     for el, attr, det in I.compare(exp_nodep, I.normalise(r2["data"])):
                         problems.append((el, "includeDeprecated:false|" + attr, det))
+                r4 = harness.execute(engine, I.decorated_schema_query(True), scn)
+                out["counts"]["evaluations"] += 1
+                if r4.get("errors") or not r4.get("data"):
+                    problems.append(("schema", "introspection-query-failed(directives on the selections)", r4.get("errors")))
+                else:
+                    for el, attr, det in I.compare(exp_all, I.normalise(r4["data"])):
+                        problems.append((el, "directives-on-introspection-selections|" + attr, det))
                 r3 = harness.execute(engine, I.DEFAULT_FILTER_QUERY, scn)
                 out["counts"]["evaluations"] += 1
                 if r3.get("data"):
